@@ -4,6 +4,8 @@ package PKG
 
 import (
 	"go/ast"
+	"go/constant"
+	"go/token"
 	r "reflect"
 
 	xr "github.com/cosmos72/gomacro/xreflect"
@@ -112,3 +114,38 @@ func vhRunStmt(stmt Stmt, env *Env) (ok bool, panicked bool) {
 var vhArgExprs map[ast.Expr]*Expr
 
 func vhModelExpr1(c *Comp, in ast.Expr, t xr.Type) *Expr { return vhArgExprs[in] }
+
+// ---- native implementations of the go/constant intrinsics (the engine intercepts them by name) ----
+
+func vhConstInt(name string) constant.Value {
+	e := vhNext("bigint")
+	s := e.Val
+	neg := false
+	if len(s) > 0 && s[0] == '-' {
+		neg, s = true, s[1:]
+	}
+	v := constant.MakeFromLiteral(s, token.INT, 0)
+	if neg {
+		v = constant.UnaryOp(token.SUB, v, 0)
+	}
+	return v
+}
+
+func vhConstFits(v constant.Value, lo int64, hi uint64) bool {
+	return constant.Compare(constant.MakeInt64(lo), token.LEQ, v) && constant.Compare(v, token.LEQ, constant.MakeUint64(hi))
+}
+
+func vhConstLow64(v constant.Value) uint64 {
+	if i, ok := constant.Int64Val(v); ok {
+		return uint64(i)
+	}
+	u, _ := constant.Uint64Val(v)
+	return u
+}
+
+func vhConstEqI64(v constant.Value, i int64) bool {
+	return v.Kind() == constant.Int && constant.Compare(v, token.EQL, constant.MakeInt64(i))
+}
+
+func vhConstKind(v constant.Value) int { return int(v.Kind()) }
+
